@@ -12,7 +12,7 @@ import (
 
 func init() {
 	register("C16",
-		"a bare name is looked up in the builtin table first and is otherwise the data-map entry of that name (with a nil error in both cases); `this` is the data map; the member reader returns (null, nil) on a null base before any reflection, reads maps with MapIndex and structs with FieldByName by the same key, and its result passes the nil normaliser; `x!.k` raises its error exactly on `IsNull(base) && Assert` before reading; the null test is true exactly for nil and nil pointers (truth table over reflect kinds); every value leaving the node dispatcher passes the normaliser, which maps Go int, int32, int64, float32, float64 to fresh numbers and returns every other value itself. A struct field that exists is read even when it holds its zero value.",
+		"a bare name is looked up in the builtin table first and is otherwise the data-map entry of that name (with a nil error in both cases); `this` is the data map; the member reader returns (null, nil) on a null base before any reflection, reads maps with MapIndex and structs with FieldByName by the same key, and its result passes the nil normaliser; `x!.k` raises its error exactly on `IsNull(base) && Assert` before reading; the null test is true exactly for nil and nil pointers (truth table over reflect kinds); every value leaving the node dispatcher passes the normaliser, which maps Go int, int32, int64, float32, float64 to fresh numbers and returns every other value itself. A struct field that exists is read even when it holds its zero value. (reflect.Value).IsNil on the member looked up sits behind a Kind test; with the base evaluated and the member read, no error is returned unless `!.` meets null; two null-like operands are loosely equal.",
 		"reflection value semantics (e.g. how a present-but-zero entry of a typed map is distinguished from a missing one).",
 		runC16)
 	register("C20",
@@ -416,13 +416,20 @@ func c16NullSafe(c *Ctx, d *Dispatcher) {
 						reads = true
 					}
 				}
-				allErr := len(r.Returns) > 0
+				allErr, anyErr := len(r.Returns) > 0, false
 				for _, ret := range r.Returns {
-					if k, ok := ret.Results[1].(*ssa.Const); ok && k.Value == nil {
+					if foldedNil(r, ret.Results[1]) {
 						allErr = false
+					} else {
+						anyErr = true
 					}
 				}
 				wantErr := null && assert
+				if !wantErr && anyErr && !allErr {
+					// an error on some path although the base evaluated, the member read succeeded and no assertion
+					// failed: `x!.k` refused for a reason other than x being null
+					allErr = true
+				}
 				if null && !assert && !reads && len(r.Returns) > 0 {
 					// `null.k`: answering null without reading is the same thing
 					reads = true
@@ -558,6 +565,10 @@ func c16Kinds(c *Ctx, reader *ssa.Function) {
 		for _, call := range r.ReachableCalls() {
 			cal := calleeOf(call)
 			if cal == nil {
+				// the field looked up in the type first: rt.FieldByName(key), then rv.FieldByIndex(sf.Index)
+				if cc := call.Common(); kn.name == "Struct" && cc.IsInvoke() && cc.Method.Name() == "FieldByName" && len(cc.Args) == 1 && cc.Args[0] == ssa.Value(key) && strings.HasSuffix(cc.Value.Type().String(), "reflect.Type") {
+					hit = true
+				}
 				continue
 			}
 			cc := call.Common()
@@ -586,7 +597,8 @@ func c16Kinds(c *Ctx, reader *ssa.Function) {
 			continue
 		}
 		r := c.foldWith(reader, 0, pinCallFn(isNull, cFalse, nil), pinCall("Kind", cInt(kn.val), func(call *ssa.Call) bool { return call.Call.IsInvoke() }),
-			pinCall("(reflect.Value).Kind", cInt(kn.val), nil), pinCall("(reflect.Value).IsValid", cTrue, nil), pinCall("(reflect.Value).IsZero", cTrue, nil), pinCall("(reflect.Value).IsNil", cFalse, nil))
+			pinCall("(reflect.Value).Kind", cInt(kn.val), nil), pinCall("(reflect.Value).IsValid", cTrue, nil), pinCall("(reflect.Value).IsZero", cTrue, nil), pinCall("(reflect.Value).IsNil", cFalse, nil),
+			pinCall("AssignableTo", cTrue, nil), pinCall("ConvertibleTo", cTrue, nil), pinCall("(reflect.Value).CanInterface", cTrue, nil))
 		readsIt := len(r.Returns) > 0
 		for _, ret := range r.Returns {
 			if isNilConst(ret.Results[0]) {
@@ -596,6 +608,7 @@ func c16Kinds(c *Ctx, reader *ssa.Function) {
 		c.R.Check(rule, "map-entry-present-with-zero-value", rp, readsIt, "a map entry that is present but holds the zero value of the element type (0 in a map[string]int, \"\" in a map[string]string, false) must be read as that value; the reader returns null for it because it treats IsZero() like a missing key")
 	}
 	c.structFieldRules(rule, reader, true)
+	c16IsNilGuarded(c, rule, reader, kinds)
 	// any other kind: (nil, nil)
 	for _, kn := range kinds {
 		if kn.name == "Map" || kn.name == "Struct" || kn.name == "Invalid" {
@@ -691,7 +704,7 @@ func c16NormaliseAs(c *Ctx, d *Dispatcher, rule string, timesOnly bool) {
 		r := c.foldWith(norm, 0, pinTypeCase(v, k))
 		ok := len(r.Returns) > 0
 		for _, ret := range r.Returns {
-			if !c.derivedOnlyFromParam(ret.Results[0], v) {
+			if !c.derivedOnlyFromParam(ret.Results[0], v) && !(k == "*decimal.Big" && c.exactDecimalCopy(ret.Results[0], v)) {
 				ok = false
 			}
 		}
@@ -1006,6 +1019,31 @@ func (c *Ctx) structFieldRules(rule string, reader *ssa.Function, present bool) 
 		pinCall("(reflect.Value).IsValid", cTrue, notOnField),
 		pinCall("(reflect.Value).IsZero", cTrue, onField),
 		pinCall("(reflect.Value).IsNil", cFalse, nil),
+		// the ordinary case: a string key fits the map's key type, the field is exported and reachable
+		pinCall("AssignableTo", cTrue, nil), pinCall("ConvertibleTo", cTrue, nil), pinCall("(reflect.Value).CanInterface", cTrue, nil),
+		pinCall("(reflect.StructField).IsExported", cTrue, nil),
+		func(v ssa.Value) (constant.Value, bool) {
+			switch x := v.(type) {
+			case *ssa.Field:
+				// sf.PkgPath of the reflect.StructField found: "" for an exported field
+				if st, ok := x.X.Type().Underlying().(*types.Struct); ok && x.Field < st.NumFields() && st.Field(x.Field).Name() == "PkgPath" && strings.HasSuffix(x.X.Type().String(), "reflect.StructField") {
+					return constant.MakeString(""), true
+				}
+			case *ssa.UnOp:
+				// the same through a spilled local: *(&sf.PkgPath)
+				if fa, ok := x.X.(*ssa.FieldAddr); ok && x.Op == token.MUL && strings.HasSuffix(deref(fa.X.Type()).String(), "reflect.StructField") {
+					if st, ok := deref(fa.X.Type()).Underlying().(*types.Struct); ok && fa.Field < st.NumFields() && st.Field(fa.Field).Name() == "PkgPath" {
+						return constant.MakeString(""), true
+					}
+				}
+			case *ssa.Extract:
+				// the error of rv.FieldByIndexErr(..): nil (no nil embedded pointer on the way)
+				if call, ok := x.Tuple.(*ssa.Call); ok && x.Index == 1 && calleeOf(call) != nil && calleeOf(call).String() == "(reflect.Value).FieldByIndexErr" {
+					return constant.MakeUnknown(), true
+				}
+			}
+			return nil, false
+		},
 		// (reflect.Type).FieldByName reports presence in its second result
 		func(v ssa.Value) (constant.Value, bool) {
 			ex, ok := v.(*ssa.Extract)
@@ -1073,7 +1111,7 @@ func (c *Ctx) entrySetterRule(rn string, setThisValue *ssa.Function) {
 			}
 		}
 		// into the runner's map, or into the fresh map that becomes it (`r.this = map[..]..{key: value}`)
-		updOK := upd != nil && upd.Key == ssa.Value(setThisValue.Params[1]) && upd.Value == ssa.Value(setThisValue.Params[2]) && (c.isThisMap(upd.Map) || fresh != nil && upd.Map == fresh)
+		updOK := upd != nil && upd.Key == ssa.Value(setThisValue.Params[1]) && (upd.Value == ssa.Value(setThisValue.Params[2]) || c.exactCopyOf(upd.Value, setThisValue.Params[2])) && (c.isThisMap(upd.Map) || fresh != nil && upd.Map == fresh)
 		if updOK && len(setThisValue.Blocks) > 0 {
 			// ... on every path: no value (null included) is silently not stored, or an earlier entry would survive
 			isUpd := func(in ssa.Instruction) bool { _, ok := in.(*ssa.MapUpdate); return ok }
@@ -1224,4 +1262,187 @@ var nilUnifiedResult = map[*Ctx]bool{}
 func (c *Ctx) nilUnifiedOK(d *Dispatcher) bool {
 	c16NilUnified(c, d, "")
 	return nilUnifiedResult[c]
+}
+
+// c16IsNilGuarded: a member is read whatever its kind - int and float entries become numbers, strings, booleans and
+// times are handed on. (reflect.Value).IsNil panics for every kind that cannot be nil, so in the member reader a call
+// of it on the value looked up (MapIndex / FieldByName / Field) must sit behind a test of that value's Kind against a
+// kind that can be nil; unguarded, reading `stock.apple` from a map[string]int fails.
+func c16IsNilGuarded(c *Ctx, rule string, reader *ssa.Function, kinds []kindConst) {
+	nillable := map[int64]bool{}
+	for _, k := range kinds {
+		switch k.name {
+		case "Pointer", "Map", "Slice", "Interface", "Func", "Chan", "UnsafePointer":
+			nillable[k.val] = true
+		}
+	}
+	same := func(a, b ssa.Value) bool {
+		if a == b {
+			return true
+		}
+		ua, oka := a.(*ssa.UnOp)
+		ub, okb := b.(*ssa.UnOp)
+		return oka && okb && ua.Op == token.MUL && ub.Op == token.MUL && ua.X == ub.X
+	}
+	isLookup := func(v ssa.Value) bool {
+		for _, rt := range plainOrigins.Roots(v) {
+			if rt.Kind == "call" && rt.Fn != nil {
+				switch rt.Fn.String() {
+				case "(reflect.Value).MapIndex", "(reflect.Value).FieldByName", "(reflect.Value).Field":
+					return true
+				}
+			}
+		}
+		return false
+	}
+	n := 0
+	instrs(reader, func(b *ssa.BasicBlock, i int, in ssa.Instruction) {
+		call, ok := in.(*ssa.Call)
+		if !ok {
+			return
+		}
+		cal := calleeOf(call)
+		if cal == nil || cal.String() != "(reflect.Value).IsNil" || !isLookup(call.Call.Args[0]) {
+			return
+		}
+		n++
+		recv := call.Call.Args[0]
+		// edges on which recv's kind is known to be one that can be nil
+		guardEdge := func(bb *ssa.BasicBlock, k int) bool {
+			if len(bb.Instrs) == 0 {
+				return false
+			}
+			iff, ok := bb.Instrs[len(bb.Instrs)-1].(*ssa.If)
+			if !ok {
+				return false
+			}
+			bo, ok := iff.Cond.(*ssa.BinOp)
+			if !ok || (bo.Op != token.EQL && bo.Op != token.NEQ) {
+				return false
+			}
+			kc, okc := bo.X.(*ssa.Call)
+			kv, okv := constIntArg(bo.Y)
+			if !okc || !okv {
+				kc, okc = bo.Y.(*ssa.Call)
+				kv, okv = constIntArg(bo.X)
+			}
+			if !okc || !okv || calleeOf(kc) == nil || calleeOf(kc).String() != "(reflect.Value).Kind" || !same(kc.Call.Args[0], recv) || !nillable[kv] {
+				return false
+			}
+			return bo.Op == token.EQL && k == 0 || bo.Op == token.NEQ && k == 1
+		}
+		unguarded := pathExists(reader, nil, func(x ssa.Instruction) bool { return x == in }, nil, func(bb *ssa.BasicBlock, k int) bool { return !guardEdge(bb, k) })
+		c.R.Check(rule, fmt.Sprintf("IsNil-on-member-guarded-by-kind#%d", n), c.P.InstrPos(in), !unguarded, "(reflect.Value).IsNil is called on the member looked up without a test that its Kind can be nil (pointer, map, slice, interface, func, chan): it panics for int, float, string, bool, struct and time members, so reading such a member from a typed map or a struct fails")
+	})
+}
+
+// foldedNil: v is the nil constant, or folded to nil under the pins of r (the error result of a call pinned to have
+// succeeded, handed on by `return reader(..)`).
+func foldedNil(r *FoldResult, v ssa.Value) bool {
+	if k, ok := v.(*ssa.Const); ok {
+		return k.Value == nil
+	}
+	lv := r.Val(v)
+	return lv.K == lConst && lv.C != nil && lv.C.Kind() == constant.Unknown
+}
+
+// exactCopyOf: v is the result of a module function applied to p that hands p back, or - for a number - a fresh number
+// made by (*Big).Copy of it: a defensive copy that keeps every digit. (Set, Round, Quantize and the arithmetic finish
+// their result in the context of the receiver: 16 digits for new(decimal.Big).)
+func (c *Ctx) exactCopyOf(v ssa.Value, p *ssa.Parameter) bool {
+	// written out (the helper expanded): every origin of the value is p itself or such a copy of it
+	if rs := plainOrigins.Roots(v); len(rs) > 1 {
+		for _, rt := range rs {
+			switch {
+			case rt.Kind == "param" && rt.V == ssa.Value(p) && len(rt.Path) == 0:
+			case rt.Kind == "call" && rt.Fn != nil && rt.Fn.String() == "(*"+decimalPath+".Big).Copy" && len(rt.Path) == 0:
+				cp := rt.V.(*ssa.Call)
+				if fresh, _ := c.isFreshDecimal(cp.Call.Args[0]); !fresh {
+					return false
+				}
+				for _, q := range plainOrigins.Roots(cp.Call.Args[1]) {
+					if !(q.Kind == "param" && q.V == ssa.Value(p)) {
+						return false
+					}
+				}
+			default:
+				return false
+			}
+		}
+		return true
+	}
+	call, ok := v.(*ssa.Call)
+	if !ok {
+		return false
+	}
+	g := calleeOf(call)
+	if g == nil || !c.inModule(g) || len(g.Blocks) == 0 || len(call.Call.Args) != 1 || stripIface(call.Call.Args[0]) != ssa.Value(p) || len(g.Params) != 1 {
+		return false
+	}
+	gp := g.Params[0]
+	n := 0
+	good := true
+	instrs(g, func(b *ssa.BasicBlock, i int, in ssa.Instruction) {
+		ret, isRet := in.(*ssa.Return)
+		if !isRet || len(ret.Results) != 1 {
+			return
+		}
+		n++
+		r := stripIface(ret.Results[0])
+		if r == ssa.Value(gp) {
+			return
+		}
+		// the value asserted out of the parameter, handed back as it is
+		allParam := true
+		rs := plainOrigins.Roots(r)
+		for _, rt := range rs {
+			if !(rt.Kind == "param" && rt.V == ssa.Value(gp) && len(rt.Path) == 0) {
+				allParam = false
+			}
+		}
+		if allParam && len(rs) > 0 {
+			return
+		}
+		cp, isCall := r.(*ssa.Call)
+		if !isCall || calleeOf(cp) == nil || calleeOf(cp).String() != "(*"+decimalPath+".Big).Copy" || len(cp.Call.Args) != 2 {
+			good = false
+			return
+		}
+		if fresh, _ := c.isFreshDecimal(cp.Call.Args[0]); !fresh {
+			good = false
+		}
+		for _, rt := range plainOrigins.Roots(cp.Call.Args[1]) {
+			if !(rt.Kind == "param" && rt.V == ssa.Value(gp)) {
+				good = false
+			}
+		}
+	})
+	return good && n > 0
+}
+
+// exactDecimalCopy: x is a fresh number made by (*Big).Copy of the number in p (a private copy that keeps every digit;
+// Set would round it to the precision of the receiver's context).
+func (c *Ctx) exactDecimalCopy(x ssa.Value, p *ssa.Parameter) bool {
+	rs := plainOrigins.Roots(stripIface(x))
+	if len(rs) == 0 {
+		return false
+	}
+	for _, rt := range rs {
+		switch {
+		case rt.Kind == "param" && rt.V == ssa.Value(p) && len(rt.Path) == 0:
+		case rt.Kind == "call" && rt.Fn != nil && rt.Fn.String() == "(*"+decimalPath+".Big).Copy" && len(rt.Path) == 0:
+			cp := rt.V.(*ssa.Call)
+			if fresh, _ := c.isFreshDecimal(cp.Call.Args[0]); !fresh {
+				return false
+			}
+			for _, q := range plainOrigins.Roots(cp.Call.Args[1]) {
+				if !(q.Kind == "param" && q.V == ssa.Value(p)) {
+					return false
+				}
+			}
+		default:
+			return false
+		}
+	}
+	return true
 }
